@@ -44,7 +44,9 @@ def run_one(sid):
     json.dump(meta, open(f"{d}/meta.json", "w"), indent=1)
     main = res[meta["property"]]
     concrete = any("no-failing-input-found" not in v for v in main["violations"])
-    return sid, main["exit"], ("concrete replay" if concrete else "no-failing-input-found") if main["exit"] == 1 else "MISSED", main["why"][:1]
+    if main["exit"] == 1 and not main["violations"]:
+        return sid, 3, "CHECK-ERROR (no VIOLATION line)", []
+    return sid, main["exit"], ("concrete replay" if concrete else "no-failing-input-found") if main["exit"] == 1 else ("MISSED" if main["exit"] == 0 else "CHECK-ERROR"), main["why"][:1]
 
 if in_repo:
     out = [run_one(s) for s in ids]
